@@ -855,7 +855,7 @@ func RunFinal(h History) (FinalState, RunStats, error) {
 		fs.HasLock = true
 		_ = e.App.QueryRow("SELECT count(*) FROM _litestream_lock").Scan(&fs.LockRows)
 	}
-	_ = e.App.QueryRow("SELECT count(*) FROM sqlite_master WHERE name LIKE '\\_litestream\\_%' ESCAPE '\\'").Scan(&fs.Tables)
+	_ = e.App.QueryRow("SELECT count(*) FROM sqlite_master WHERE type='table' AND name LIKE '\\_litestream\\_%' ESCAPE '\\' AND name NOT IN ('_litestream_audit')").Scan(&fs.Tables)
 	return fs, st, nil
 }
 
